@@ -480,6 +480,11 @@ func runC15(c *core.Ctx) {
 	importObligations(c, runC01, "R5", func(o *core.Obligation) bool {
 		return o.Rule == "R3" && (strings.Contains(o.Key, "transport-as-writer") || strings.Contains(o.Key, "codec/xhttp") || strings.Contains(o.Key, "enqueuer/"))
 	})
+	// the response bytes the writer hands down reach the wire as written: buffers entering the queue are private
+	// and not recycled while queued (C10), the transport wrappers keep one write sink (C17-R1)
+	c.Rule("R6", "response bytes are not altered or reordered below the codec: private queue buffers, one write sink (shared with C10-R1/R4/R6, C17-R1)", 3)
+	importObligations(c, runC10, "R6", func(o *core.Obligation) bool { return o.Rule == "R1" || o.Rule == "R4" || o.Rule == "R6" })
+	importObligations(c, runC17, "R6", func(o *core.Obligation) bool { return o.Rule == "R1" })
 	// the close request is issued only under request.Close
 	if loopFn != nil {
 		hc := lookupNamedT(p.TPkg(""), "HandlerContext")
